@@ -11,6 +11,7 @@ mod c09;
 mod c10;
 mod c14;
 mod c16;
+mod c18;
 mod c19;
 mod c20;
 mod inproc;
@@ -39,6 +40,7 @@ pub fn replay_dispatch(prop: &str, layer: &str, case: &serde_json::Value) -> Res
         "C10" => c10::replay(layer, case),
         "C14" => c14::replay(layer, case),
         "C16" => c16::replay(layer, case),
+        "C18" => c18::replay(layer, case),
         "C19" => c19::replay(layer, case),
         "C20" => c20::replay(layer, case),
         _ => Err(format!("no replay handler for property {prop}")),
@@ -142,6 +144,7 @@ fn main() {
         "C10" => c10::run(&mut run, &ctx),
         "C14" => c14::run(&mut run, &ctx),
         "C16" => c16::run(&mut run, &ctx),
+        "C18" => c18::run(&mut run, &ctx),
         "C19" => c19::run(&mut run, &ctx),
         "C20" => c20::run(&mut run, &ctx),
         _ => {
